@@ -1,2 +1,43 @@
-(** Theorems for C03: filled in below as the proofs land. *)
-From JL Require Import Base.Json.
+(** * C03: every operator enforces its arity; {op: x} means exactly {op: [x]}.
+    Statements only; proofs are in Proofs/Tables.v and Proofs/Arity.v. *)
+From Coq Require Import List String NArith Bool.
+From JL Require Import Base.Json Base.Lits Base.Monad Model.Ops Model.Table Gen.OpTable Model.Eval.
+From JL Require Import Spec.Specs Proofs.Tables Proofs.Parse Proofs.Literal Proofs.Arity.
+Import ListNotations.
+Local Open Scope string_scope.
+
+(** For each of the 35 names, the length predicate generated from the source accepts exactly
+    the documented operand counts - for every count n, not just 0..6. *)
+Theorem C03_arity_table :
+  forall k o, In (k, o) op_names -> forall n,
+    match np_of k with Some p => is_valid_len p n | None => false end = documented o n.
+Proof. exact arity_documented. Qed.
+Print Assumptions C03_arity_table.
+
+(** Any other count is rejected with WrongArgumentCount whatever the operands are (they are
+    not even parsed): no surplus operand is ignored, no default invented. *)
+Theorem C03_wrong_count_rejected :
+  forall k o args, name_of k = Some o -> documented o (List.length args) = false ->
+    parse (Obj [(k, Arr args)]) = Err WrongArgumentCount.
+Proof. exact wrong_count_rejected. Qed.
+Print Assumptions C03_wrong_count_rejected.
+
+(** A single non-array operand without brackets parses like the bracketed form ... *)
+Theorem C03_unary_sugar_parse :
+  forall k o x, name_of k = Some o -> (forall l, x <> Arr l) ->
+    same_or_both_err (parse (Obj [(k, x)])) (parse (Obj [(k, Arr [x])])).
+Proof. exact sugar_parse. Qed.
+Print Assumptions C03_unary_sugar_parse.
+
+(** ... hence evaluates like it: the same value and log lines, or an error in both cases. *)
+Theorem C03_unary_sugar :
+  forall k o x n d, name_of k = Some o -> (forall l, x <> Arr l) ->
+    msame (apply_fuel n (Obj [(k, x)]) d) (apply_fuel n (Obj [(k, Arr [x])]) d).
+Proof. exact sugar_eval. Qed.
+Print Assumptions C03_unary_sugar.
+
+Example C03_nonvacuous :
+  parse (Obj [(lit "var", Arr [Str (lit "a"); Null; Null])]) = Err WrongArgumentCount /\
+  snd (apply (Obj [(lit "!", Bool true)]) Null) = Ok (Bool false) /\
+  snd (apply (Obj [(lit "!", Arr [Bool true])]) Null) = Ok (Bool false).
+Proof. vm_compute. repeat split. Qed.
